@@ -63,6 +63,8 @@ type setupT struct {
 	Suppress bool     `json:"suppress"`
 	Def      [3]int   `json:"def"`
 	Watching []bool   `json:"watching"`
+	NoNew    bool     `json:"nonew,omitempty"` // Params.OnNewConfig is nil
+	NoErr    bool     `json:"noerr,omitempty"` // Params.OnWatchedError is nil
 	NV       bool     `json:"nv,omitempty"`    // the config type has no Verify method
 	Blank    []bool   `json:"blank,omitempty"` // the source is a sourcewrap.Blank (its updates go through SetSource)
 	Inits    []svJSON `json:"inits"`
@@ -146,8 +148,8 @@ func (s setupT) coq() string {
 	for i := range s.Inits {
 		srcs = append(srcs, fmt.Sprintf("(%s, %s)", coqfmt.Bool(s.Watching[i]), s.Inits[i].coq()))
 	}
-	return fmt.Sprintf("(mkSetup (mkParams %s %s %s) (mkCfg %d %d %d) %s %s)", coqfmt.Bool(s.Skip), coqfmt.Bool(s.Delay),
-		coqfmt.Bool(s.Suppress), s.Def[0], s.Def[1], s.Def[2], coqfmt.List(srcs), coqfmt.Bool(s.NV))
+	return fmt.Sprintf("(mkSetup (mkParams %s %s %s) (mkCfg %d %d %d) %s %s %s %s)", coqfmt.Bool(s.Skip), coqfmt.Bool(s.Delay),
+		coqfmt.Bool(s.Suppress), s.Def[0], s.Def[1], s.Def[2], coqfmt.List(srcs), coqfmt.Bool(s.NV), coqfmt.Bool(!s.NoNew), coqfmt.Bool(!s.NoErr))
 }
 
 var monPoints = map[string]int{"mon.loop": 0, "mon.submit-err": 1, "mon.reply": 2, "mon.store": 3, "mon.updates": 4,
